@@ -21,6 +21,7 @@ MCInit == Init /\ hist = <<>>
 MCNext == /\ \/ \E v \in Ids : AppendOk(v)
              \/ AppendRejected \/ AppendEncodeFails \/ Flush
              \/ ExtendOk(<<"a", "c">>) \/ ExtendOk(<<"b", "b">>)
+             \/ ExtendStopsAtBad(<<"c">>) \/ ExtendStopsAtBad(<<>>)
              \/ \E k \in Keys : AddUserMetadata(k)
              \/ Reset \/ Close("into_inner") \/ Close("drop") \/ Reopen
           /\ hist' = Append(hist, last')
